@@ -98,31 +98,44 @@ def c09_small(tier="quick", seed=0):
                witness=(f"new RegExp({json.dumps(bad[k][0][0])}, '{bad[k][0][1]}')" if k in bad else None), confirmed=True if k in bad else None, domain=n, key=f"C09.bounded.small-patterns.{k}") for k, n in sorted(counts.items())]
 
 
+_ES_WS = set("\t\n\x0b\x0c\r \xa0\u1680\u2000\u2001\u2002\u2003\u2004\u2005\u2006\u2007\u2008\u2009\u200a\u2028\u2029\u202f\u205f\u3000\ufeff")
+_CHARSET_SPEC = {
+    "\\d": lambda ch: "0" <= ch <= "9", "\\D": lambda ch: not ("0" <= ch <= "9"),
+    "\\w": lambda ch: ch.isascii() and (ch.isalnum() or ch == "_"), "\\W": lambda ch: not (ch.isascii() and (ch.isalnum() or ch == "_")),
+    "\\s": lambda ch: ch in _ES_WS, "\\S": lambda ch: ch not in _ES_WS,
+    ".": lambda ch: ch not in "\n\r\u2028\u2029",
+}
+
+
+def _charset_sweep(args):
+    """one escape (bare, or inside a plain / negated class) over a range of code points, through the real engine"""
+    esc, form, hi = args
+    from microjs.regex import RegExp
+    pred = _CHARSET_SPEC[esc]
+    pat = {"bare": "^" + esc + "$", "class": "^[" + esc + "]$", "negated-class": "^[^" + esc + "]$"}[form]
+    rx = RegExp(pat, "")
+    bad, n = None, 0
+    for cp in range(0, hi):
+        if 0xD800 <= cp <= 0xDFFF:
+            continue
+        ch = chr(cp)
+        n += 1
+        got = rx.test(ch)
+        want = pred(ch) != (form == "negated-class")
+        if got != want and bad is None:
+            bad = (cp, got)
+    return esc, form, n, bad
+
+
 @groups.group(id="C09.charsets", prop="C09", kind="K4", functions=["microjs.regex.vm:RegexVM._execute"])
 def c09_charsets(tier="quick", seed=0):
     """\\d \\w \\s . and their negations over all code points (through the real engine, one test per code point class run)"""
-    from microjs.regex import RegExp
-    ES_WS = set("\t\n\x0b\x0c\r \xa0\u1680\u2000\u2001\u2002\u2003\u2004\u2005\u2006\u2007\u2008\u2009\u200a\u2028\u2029\u202f\u205f\u3000\ufeff")
-    spec = {
-        "\\d": lambda ch: "0" <= ch <= "9", "\\D": lambda ch: not ("0" <= ch <= "9"),
-        "\\w": lambda ch: ch.isascii() and (ch.isalnum() or ch == "_"), "\\W": lambda ch: not (ch.isascii() and (ch.isalnum() or ch == "_")),
-        "\\s": lambda ch: ch in ES_WS, "\\S": lambda ch: ch not in ES_WS,
-        ".": lambda ch: ch not in "\n\r\u2028\u2029",
-    }
+    import multiprocessing as mp
+    jobs = [(esc, "bare", 0x110000) for esc in _CHARSET_SPEC]
+    with mp.get_context("fork").Pool(7) as pool:
+        res = pool.map(_charset_sweep, jobs)
     out = []
-    step = 1 if tier == "thorough" else 1
-    for esc, pred in spec.items():
-        rx = RegExp("^" + esc + "$", "")
-        bad = None
-        n = 0
-        for cp in range(0, 0x110000, step):
-            if 0xD800 <= cp <= 0xDFFF:
-                continue
-            ch = chr(cp)
-            n += 1
-            got = rx.test(ch)
-            if got != pred(ch) and bad is None:
-                bad = (cp, got)
+    for esc, form, n, bad in res:
         oid = "C09.charsets." + {"\\d": "digit", "\\D": "non-digit", "\\w": "word", "\\W": "non-word", "\\s": "space", "\\S": "non-space", ".": "dot"}[esc]
         out.append(ob(oid, bad is None, "K4", f"{n} code points" if bad is None else f"U+{bad[0]:04X}: engine {bad[1]}, ECMAScript {not bad[1]}",
                       witness=(f"/^{esc}$/.test(String.fromCharCode(0x{bad[0]:x}))" if bad else None), confirmed=True if bad else None, domain=n, key=oid))
@@ -291,18 +304,29 @@ def c09_classes(tier="quick", seed=0):
                         bad = (f"/^[{neg}{body}]$/{fl}.test({ch!r})", f"engine {not want}, set union says {want}")
     out = [ob("C09.classes.union", bad is None, "K4", f"{n} (class, character) cases" if bad is None else f"{bad[0]}: {bad[1]}", witness=(bad[0] if bad else None), confirmed=True if bad else None, domain=n)]
     # shorthand escapes inside a class agree with the bare escape over all BMP code points
+    import multiprocessing as mp
+    jobs = [(esc, form, 0x10000) for esc in ("\\d", "\\D", "\\w", "\\W", "\\s", "\\S") for form in ("class", "negated-class")]
+    with mp.get_context("fork").Pool(12) as pool:
+        res = pool.map(_charset_sweep, jobs)
     bad = None
     n = 0
-    for esc, pred in (("\\d", members["\\d"]), ("\\D", members["\\D"]), ("\\w", members["\\w"]), ("\\W", members["\\W"]), ("\\s", members["\\s"]), ("\\S", members["\\S"])):
-        for neg in ("", "^"):
-            rx = RegExp("^[" + neg + esc + "]$", "")
-            for cp in range(0x10000):
-                if 0xD800 <= cp <= 0xDFFF:
-                    continue
-                n += 1
-                ch = chr(cp)
-                if rx.test(ch) != (pred(ch) != (neg == "^")) and bad is None:
-                    bad = (f"/^[{neg}{esc}]$/.test(String.fromCharCode({cp}))", f"engine {rx.test(ch)}")
+    for esc, form, k, b in res:
+        n += k
+        if b is not None and bad is None:
+            bad = (f"/^[{'^' if form == 'negated-class' else ''}{esc}]$/.test(String.fromCharCode({b[0]}))", f"engine {b[1]}")
     out.append(ob("C09.classes.shorthands-in-classes", bad is None, "K4", f"{n} (class, code point) cases" if bad is None else f"{bad[0]}: {bad[1]}",
                   witness=(bad[0] if bad else None), confirmed=True if bad else None, domain=n))
     return out
+
+
+# ---- fixed probes (known deviations are listed in /verif/known_findings.json and reported as KNOWN-FINDING) ------------------
+PROBES_C09 = [('lookbehind-matches-backwards', "/(?<=(\\d+)(\\d+))$/.exec('1053').join()", ',1,053')]
+groups.register_probes("C09", PROBES_C09)
+
+
+PROBES_C09 += [
+    ("forward-backreference", "/\\1(a)/.exec('a').join('|')", "a|a"),
+    ("backreference-to-later-alternative", "/(a)|\\2(b)/.exec('b').length", 3),
+    ("non-space-in-class", "[/[\\S]/.test('\u00e9'), /[^\\S]/.test('\u00e9'), /[\\S]/.test('\ufeff')].join()", "true,false,false"),
+    ("kelvin-sign-ignore-case", "[/[a-z]/i.test('\u212a'), /k/i.test('\u212a'), /I/i.test('\u0131'), /s/i.test('\u017f'), /a/i.test('\u0130')].join()", "false,false,false,false,false"),
+]
